@@ -136,6 +136,17 @@ theorem gen_hasCheckpointAtPosition_is_model (o : ROpts) (dim : Nat) (hd : dim <
   subst h
   cases s.hasCpAt position <;> rfl
 
+/-- … and its in-bounds obligations (`cp < checkpoints.size()`, coordinate index `< 2`) hold: the `getD` reads of the
+    regenerated kernel never fall back to the default on the object of a model segment (fAudit: was missing) -/
+theorem gen_hasCheckpointAtPosition_no_assertion (o : ROpts) (dim : Nat) (s : RSeg) (d : Nat) (hd : d < 2) (position : Rat) :
+    NudgeK.hasCheckpointAtPosition_pre position d (toK o dim s) = true := by
+  unfold NudgeK.hasCheckpointAtPosition_pre
+  rw [hasCp_loop_pre position d (toK o dim s) _ (fun c hc => by rw [toK_cp_len o dim s c hc]; exact hd) _ 0 (by omega)]
+  generalize NudgeK.hasCheckpointAtPosition_loop1 position d (toK o dim s) (toK o dim s).checkpoints.length
+    ((toK o dim s).checkpoints.length - 0) 0 = r
+  obtain ⟨r1, r2⟩ := r
+  cases r1 <;> rfl
+
 /-- `shouldAlignWith` (calls the regenerated `overlapsWith`, `lowPoint`, `highPoint`,
     `hasCheckpointAtPosition`) -/
 theorem gen_shouldAlignWith_is_model (o : ROpts) (dim : Nat) (hd : dim < 2) (a b : RSeg) :
@@ -151,5 +162,25 @@ theorem gen_shouldAlignWith_is_model (o : ROpts) (dim : Nat) (hd : dim < 2) (a b
       by_cases hov : overlapsWith o a b = true <;>
       simp [hc, hfa, hfb, hca, hcb, h1, h2, hov] <;> (repeat' split) <;> simp_all
   · simp [hc]
+
+/-- … and all its in-bounds obligations hold (point reads, the two calls of `hasCheckpointAtPosition`, the call of
+    `overlapsWith`) (fAudit: was missing) -/
+theorem gen_shouldAlignWith_no_assertion (o : ROpts) (dim : Nat) (hd : dim < 2) (a b : RSeg) :
+    NudgeK.shouldAlignWith_pre (toK o dim b) dim (toK o dim a) = true := by
+  have hp : ∀ (x : RSeg) (t : Rat), NudgeK.hasCheckpointAtPosition_pre t ((dim + 1) % 2) (toK o dim x) = true :=
+    fun x t => gen_hasCheckpointAtPosition_no_assertion o dim x _ (Nat.mod_lt _ (by decide)) t
+  have hov := gen_overlapsWith_no_assertion o dim hd a b
+  rcases dim_cases hd with rfl | rfl <;>
+    simp only [NudgeK.shouldAlignWith_pre, hov, hp, NudgeK.lowPoint, NudgeK.highPoint, NudgeK.lowPoint_pre, NudgeK.highPoint_pre] <;>
+    simp [toK, ptOf, earlyExitPre] <;> (repeat' split) <;> simp_all
+
+-- non-vacuity of the hypothesis `hr` of `gen_createSolverVariable_is_model` (exact arithmetic: `rnd = id`), on a zigzag
+-- segment (the only branch that rounds): the centre of [0, 30]
+example : (NudgeK.createSolverVariable false (toK ⟨false, true, false, 0, fun _ _ => false, false, 10, id⟩ 0
+      ⟨1, 0, 100, 5, 0, 30, false, false, false, false, true, false, []⟩)).var_ =
+    some ⟨0, 15, freeWeight, 1⟩ := by
+  rw [(gen_createSolverVariable_is_model ⟨false, true, false, 0, fun _ _ => false, false, 10, id⟩ (fun _ => rfl) 0 (by decide)
+    ⟨1, 0, 100, 5, 0, 30, false, false, false, false, true, false, []⟩).1]
+  decide +kernel
 
 end AdaptaVerif.Props.C10Tie
